@@ -53,6 +53,25 @@ def run_impl(lines, timeout_ms=15000):
     return res
 
 
+def mask_overflow(case, obs):
+    """In multiset mode the order in which several models write to one sink is schedule-dependent; once an
+    EventBuffer has overflowed, WHICH events it still holds depends on that order: such a read is only compared
+    by its length (C17 covers the eviction rule itself, on op sequences)."""
+    if obs is None or case.get("mode", "multiset") != "multiset":
+        return obs
+    out = list(obs)
+    for j, c in enumerate(case["cmds"]):
+        if c[0] == "rs" and j + 1 < len(out):
+            res, t, es = out[j + 1]
+            if res.startswith("sink:"):
+                sk = case.get("sinks", [])
+                cap = sk[c[1]][1] if c[1] < len(sk) and sk[c[1]][0] == "buf" else None
+                n = len([x for x in res[5:].split(",") if x])
+                if cap is not None and n >= cap:
+                    out[j + 1] = ("sink:overflowed(%d)" % n, t, es)
+    return out
+
+
 def compare_cases(rep, name, cases, model_ok, oracles=(), thread_counts=(1,), rule="", nontrivial=lambda c, o: True,
                   bugs=None, sample_filter=None):
     """cases: list of dicts.  oracles: functions (case, impl_obs) -> None | failure description."""
@@ -68,12 +87,12 @@ def compare_cases(rep, name, cases, model_ok, oracles=(), thread_counts=(1,), ru
     dis, orc = [], []
     seen = set()
     for ci, c in enumerate(cases):
-        mobs = simcase.parse_out(mouts[ci]) if mouts[ci] is not None else None
+        mobs = mask_overflow(c, simcase.parse_out(mouts[ci])) if mouts[ci] is not None else None
         if model_ok and mobs is None:
             dis.append((ci, 1, "model-output", mouts[ci])); continue
         for th in thread_counts:
             iline = results[th][ci]
-            iobs = simcase.parse_out(iline)
+            iobs = mask_overflow(c, simcase.parse_out(iline))
             if iobs is None:
                 # hang / crash of the implementation: compare with the model's verdict
                 if mobs is not None and any(o[0] == "hang" for o in mobs) and iline == "HANG":
